@@ -22,8 +22,9 @@ ASSUMPTIONS = ['oracle: pickle.loads(pickle.dumps(obj, 2)), compared by type-str
 
 LEAVES = [1, 'txt', None, 2.5, True, K.Color.RED, 3 + 4j, K.Plain, K.func, collections, b'by', K.Point(1, 'p'), (), (1, 'two'), K.Color, len]
 KINDS = ['Plain', 'Slots', 'SlotsAndDict', 'State', 'NewArgs', 'Reduce', 'ReduceNoArgs', 'ListSub', 'DictSub', 'list', 'dict', 'tuple', 'Point', 'OrderedDict', 'set', 'leaf',
-         'StatePair', 'SlotsState']
-MUTABLE_PLAIN = ('Plain', 'list', 'dict')            # a cycle through these only must be preserved
+         'StatePair', 'SlotsState', 'KeyDict']
+# KeyDict: a dict whose first child is its *key* (when hashable: instances hash by identity) and whose second child is that key's value
+MUTABLE_PLAIN = ('Plain', 'list', 'dict', 'KeyDict')            # a cycle through these only must be preserved
 IMMUTABLE = ('tuple', 'Point', 'NewArgs', 'set', 'leaf')
 
 
@@ -55,7 +56,7 @@ def build(ns, kinds, A, B, leaf_i):
             objs[i] = K.DictSub()
         elif k == 'list':
             objs[i] = []
-        elif k == 'dict':
+        elif k == 'dict' or k == 'KeyDict':
             objs[i] = {}
         elif k == 'OrderedDict':
             objs[i] = collections.OrderedDict()
@@ -114,6 +115,14 @@ def build(ns, kinds, A, B, leaf_i):
         elif k in ('dict', 'OrderedDict'):
             o['k1'] = child(a, i)
             o['k2'] = child(b, i)
+        elif k == 'KeyDict':
+            cand = objs[a] if a is not None else None
+            try:
+                hash(cand)
+                key = child(a, i) if cand is not None else 'key'
+            except TypeError:
+                key = 'key'
+            o[key] = child(b, i)
     return objs[0], info, edges
 
 
@@ -172,13 +181,20 @@ def bisim(x, y, fwd, bwd, depth=0):
     if isinstance(x, tuple):
         return len(x) == len(y) and all(bisim(p, q, fwd, bwd, depth + 1) for p, q in zip(x, y))
     if isinstance(x, (set, frozenset)):
+        if len(x) == 1 and len(y) == 1:
+            # members with identity-based equality (instances) can only be compared structurally
+            return bisim(next(iter(x)), next(iter(y)), fwd, bwd, depth + 1)
         return x == y
     if isinstance(x, list):
         if len(x) != len(y) or not all(bisim(p, q, fwd, bwd, depth + 1) for p, q in zip(x, y)):
             return False
     if isinstance(x, dict):
-        if list(x.keys()) != list(y.keys()) or not all(bisim(x[k], y[k], fwd, bwd, depth + 1) for k in x):
+        if len(x) != len(y):
             return False
+        # keys pairwise in insertion order (a key may be an instance: identity-based equality), then the values
+        for kx, ky in zip(list(x.keys()), list(y.keys())):
+            if not bisim(kx, ky, fwd, bwd, depth + 1) or not bisim(x[kx], y[ky], fwd, bwd, depth + 1):
+                return False
     dx, dy = getattr(x, '__dict__', None), getattr(y, '__dict__', None)
     if (dx is None) != (dy is None):
         return False
@@ -222,7 +238,7 @@ def objects(ns: int, k0: int, k1: int, k2: int, k3: int, a0: int, a1: int, a2: i
     if not bisim(got, want, {}, {}):
         return fail(P, 'DIFFERS from what pickle protocol 2 rebuilds (types, state, sharing or cycles)', k0=k0, k1=k1)
     # the full loader accepts exactly the tuple / complex / name subset
-    safe_kinds = ('list', 'dict', 'tuple', 'set')
+    safe_kinds = ('list', 'dict', 'tuple', 'set', 'KeyDict')
     leaf = pick(leaf_i, LEAVES)
     only_full = all(k in safe_kinds for k, _, _ in info) and not isinstance(leaf, (K.Color, types.ModuleType, K.Point))
     try:
@@ -239,7 +255,7 @@ def objects(ns: int, k0: int, k1: int, k2: int, k3: int, a0: int, a1: int, a2: i
 
 
 SIB = ['scalar', 'list[prev]', 'dict{k: prev}', 'tuple(prev)', 'Point(prev, 1)', 'OrderedDict(k=prev)', 'State(prev)', 'Reduce(extra=prev)', 'selflist', 'selfdict',
-       'list[root]', 'Plain(x=prev)', 'StatePair(prev, prev)', 'ListSub[prev]']
+       'list[root]', 'Plain(x=prev)', 'StatePair(prev, prev)', 'dict{Plain(self): prev}', 'set{Plain(self, prev)}', 'ListSub[prev]']
 
 
 def _sib(kind, prev, root):
@@ -282,6 +298,14 @@ def _sib(kind, prev, root):
         o = K.StatePair()
         o.first = o.second = prev
         return o
+    if k == 'dict{Plain(self): prev}':
+        o = K.Plain()
+        o.x, o.y = o, 1
+        return {o: prev}
+    if k == 'set{Plain(self, prev)}':
+        o = K.Plain()
+        o.x, o.y = o, prev
+        return {o}
     o = K.ListSub([prev])
     o.note = prev
     return o
